@@ -5,6 +5,7 @@ import Vore.Spec.Search
 import Vore.Lemmas.Replace
 import Vore.Lemmas.GenR
 import Vore.Lemmas.SimR
+import Vore.Lemmas.TotalR
 /-!
 # Driver — line protocol: one case per input line, one result line per case.
 `<id> TAB <op> TAB <field> …`
@@ -102,6 +103,44 @@ def spec2Ok (text : Bytes) (cmds : List Cmd) (groups : List (List Match)) : Nat 
     | _, _ => acc
   go cmds groups [] (0, true)
 
+/-- ids of the subroutines called while nothing has been consumed since body entry -/
+def unguardedCalls : Bool → Spec.RExpr → List Nat
+  | g, .seq a b => unguardedCalls g a ++ unguardedCalls (g || mc a) b
+  | g, .call _ id => if g then [] else [id]
+  | g, .star _ _ b => unguardedCalls g b
+  | g, .branch l r => unguardedCalls g l ++ unguardedCalls g r
+  | g, .dec _ b => unguardedCalls g b
+  | g, .sub _ _ b _ => unguardedCalls g b
+  | _, _ => []
+
+/-- a candidate rank table: longest chain of unguarded calls below each subroutine (the table is only
+a witness: `guardedB`, proved sufficient in `Lemmas/TotalR.lean`, decides whether it is good) -/
+def rankTable (ρ : Spec.Procs) : List (Nat × Nat) :=
+  let step (tbl : List (Nat × Nat)) : List (Nat × Nat) :=
+    ρ.map (fun ent => (ent.1, ((unguardedCalls false ent.2.2.1).map (fun id => rkOf tbl id + 1)).foldl max 0))
+  (List.range (ρ.length + 1)).foldl (fun t _ => step t) (ρ.map (fun e => (e.1, 0)))
+
+/-- per search command with subroutines: does `C10_terminates_guardedB` apply? (commands, guarded) -/
+def guardInfo (cmds : List Cmd) : Nat × Nat :=
+  let rec go (cs : List Cmd) (G : Spec.GEnv) (acc : Nat × Nat) : Nat × Nat :=
+    match cs with
+    | [] => acc
+    | c :: rest =>
+      let chk (e : Expr) : Nat × Nat :=
+        match Spec.resolveBody G e with
+        | none => acc
+        | some r =>
+          if (Spec.procsOf r).isEmpty then acc else
+          let tbl := rankTable (Spec.procsOf r)
+          let R := (tbl.map (·.2)).foldl max 0 + 1
+          if decide (UniqueSubs r) && wfRB r && guardedB r tbl R then (acc.1 + 1, acc.2 + 1) else (acc.1 + 1, acc.2)
+      match c with
+      | .find _ e => go rest G (chk e)
+      | .replace _ e _ => go rest G (chk e)
+      | .setPattern x e p => go rest ((x, e, p) :: G) acc
+      | _ => go rest G acc
+  go cmds [] (0, 0)
+
 /-- property predicates evaluated on the implementation's result (4th field) -/
 def predsOn (cmds : List Cmd) (lens : List Nat) (text : Bytes) (impl : String) : String :=
   match parseMatches impl with
@@ -130,7 +169,9 @@ def handleRun (fields : List String) : String :=
         let code2 := match twoPass cmds bc with
           | some bc2 => "\tCODE2 " ++ bytecodeStr bc2
           | none => ""
-        "CODE " ++ bytecodeStr bc ++ "\tRES " ++ resStr (runProgram procFuel vmFuel "text".toUTF8.toList t bc) ++ pred ++ code2
+        let gi := guardInfo cmds
+        let guard := if gi.1 == 0 then "" else s!"\tGUARD {gi.2}/{gi.1}"
+        "CODE " ++ bytecodeStr bc ++ "\tRES " ++ resStr (runProgram procFuel vmFuel "text".toUTF8.toList t bc) ++ pred ++ code2 ++ guard
     | _, _ => "BADCASE"
   | _ => "BADCASE"
 
